@@ -118,15 +118,16 @@ func (s scen) name() string {
 
 func mkExec(s scen) *mc.Exec {
 	var (
-		adds        []addRec
-		sigs        []sigRec
-		rl          ratelimiting.RateLimiter
-		runDone     bool
-		runErr      error
-		closeDone   bool
-		liveAtClose []string
-		cancelled   bool
-		capErr      string
+		adds         []addRec
+		sigs         []sigRec
+		rl           ratelimiting.RateLimiter
+		runDone      bool
+		runErr       error
+		closeDone    bool
+		liveAtClose  []string
+		cancelled    bool
+		capErr       string
+		secondRunErr string
 	)
 	body := func() {
 		var err error
@@ -198,6 +199,13 @@ func mkExec(s scen) *mc.Exec {
 					cancelled = true
 					cancel()
 				}
+				if s.end.kind == 'R' {
+					// a second Run while the first one is running is refused, and
+					// leaves nothing behind that Close would wait for
+					if err := rl.Run(ctx, ch); err == nil {
+						secondRunErr = "a second Run on a running limiter returned nil"
+					}
+				}
 				if s.end.kind == 'D' {
 					// two overlapping Close calls: each must return only after the helpers finished
 					mc.GoNamed("ender2", func() {
@@ -210,7 +218,7 @@ func mkExec(s scen) *mc.Exec {
 						}
 					})
 				}
-				if s.end.kind == 'C' || s.end.kind == 'B' || s.end.kind == 'D' {
+				if s.end.kind == 'C' || s.end.kind == 'B' || s.end.kind == 'D' || s.end.kind == 'R' {
 					// helpers started by operations that began before Close was
 					// called; later ones belong to calls racing with Close
 					born := mc.NumThreads()
@@ -239,7 +247,10 @@ func mkExec(s scen) *mc.Exec {
 		if runErr != nil {
 			return fmt.Errorf("Run returned %v", runErr)
 		}
-		if (s.end.kind == 'C' || s.end.kind == 'B' || s.end.kind == 'D') && len(liveAtClose) > 0 {
+		if secondRunErr != "" {
+			return fmt.Errorf("%s", secondRunErr)
+		}
+		if (s.end.kind == 'C' || s.end.kind == 'B' || s.end.kind == 'D' || s.end.kind == 'R') && len(liveAtClose) > 0 {
 			return fmt.Errorf("Close returned while helper goroutines were still alive: %v", liveAtClose)
 		}
 		_ = closeDone
@@ -383,6 +394,15 @@ func scenarios() []hx.Scenario {
 			for _, cons := range []byte{'l', 's'} {
 				add(scen{c: c, adders: [][]int{g}, consumer: cons, timeline: true}, 1, mc.TimerGo123, len(g) > 2 && cons == 's')
 			}
+		}
+	}
+	// (a-) a second Run on a running limiter is refused and leaves nothing behind
+	// that Close would wait for (timeline mode: the one-unit sleep before it
+	// orders it after the first Run has started)
+	for _, c := range []cfg{{2, 4, 0}, {2, 4, 2}} {
+		for _, as := range [][][]int{{{0}}, {{0, 1}}, {{0}, {1}}, {}} {
+			add(scen{c: c, adders: as, consumer: 'p', timeline: true, end: ender{'R', 1}}, 1, mc.TimerGo123, false)
+			add(scen{c: c, adders: as, consumer: 'p', timeline: true, end: ender{'R', 3}}, 1, mc.TimerGo123, false)
 		}
 	}
 	// (a') longer histories over a small gap alphabet: a first busy period that
